@@ -494,7 +494,7 @@ package meta
 // (every match starts at a prefilter candidate: C17 for the engine's literal set) ----
 //@ axiom refModeFound: forall e *Engine, h []byte, at int :: refFound(e, true, h, at) == refFound(e, false, h, at)
 //@ spec func pfLink(e *Engine) bool = e.prefilter != nil ==> ((forall l bool, h []byte, at int :: refFound(e, l, h, at) ==> pfOcc(e.prefilter, h, refStart(e, l, h, at))) && (forall h []byte, i int :: pfOcc(e.prefilter, h, i) ==> 0 <= i && i < len(h)))
-//@ spec func btLink(e *Engine) bool = e.boundedBacktracker != nil ==> (forall l bool, h []byte, at int :: btFound(e.boundedBacktracker, l, h, at) == refFound(e, l, h, at))
+//@ spec func btLink(e *Engine) bool = e.boundedBacktracker != nil ==> (forall l bool, h []byte, at int :: btFound(e.boundedBacktracker, l, h, at) == refFound(e, l, h, at) && (btFound(e.boundedBacktracker, l, h, at) ==> btStart(e.boundedBacktracker, l, h, at) == refStart(e, l, h, at) && btEnd(e.boundedBacktracker, l, h, at) == refEnd(e, l, h, at)))
 //@ spec func dfaBoolLink(e *Engine) bool = e.dfa != nil ==> (forall h []byte :: dfaHasMatch(e.dfa, h) == refFound(e, false, h, 0))
 // a complete prefilter's candidate is a match by itself (C17: "a literal marked complete is by itself an entire match")
 //@ spec func pfCompleteLink(e *Engine) bool = (e.prefilter != nil && pfIsComplete(e.prefilter)) ==> (forall l bool, h []byte, i int :: pfOcc(e.prefilter, h, i) ==> refFound(e, l, h, 0))
@@ -606,11 +606,23 @@ package meta
 //@   modifies @searchState
 //@   ensures at <= len(haystack) ==> result2 == refFound(e, e.longest, haystack, at)
 //@   ensures result2 ==> result0 == refStart(e, e.longest, haystack, at) && result1 == refEnd(e, e.longest, haystack, at)
-//@ trusted func (*Engine).findIndicesNFAAtWithState
-//@   requires leafOK(e) && 0 <= at && state != nil
+// the NFA-family span search that the enumeration loops call at every resume position: prefilter candidate loop, then
+// the bounded backtracker when it can take the rest of the input, else the state's PikeVM - proved to return the
+// reference span from the leaf links (every match starts at a prefilter candidate; both engines decide the reference
+// in the state's mode). A fallback that does not carry that link (e.g. one that searches a slice of the haystack and so
+// loses the byte before `at`) cannot establish the postcondition.
+//@ spec func pvStateLink(e *Engine, s *SearchState) bool = s != nil && s.pikevm != nil && (forall h []byte, p int :: pvFoundAt(s.pikevm, h, p) == refFound(e, e.longest, h, p) && pvSpanStart(s.pikevm, h, p) == refStart(e, e.longest, h, p) && pvSpanEnd(s.pikevm, h, p) == refEnd(e, e.longest, h, p)) && (e.boundedBacktracker != nil ==> s.backtracker != nil && s.backtracker.Longest == e.longest)
+//@ func (*Engine).findIndicesNFAAtWithState
+//@   props C02 C04 C11
+//@   opt safety=off
+//@   requires leafOK(e) && pvStateLink(e, state) && 0 <= at
 //@   modifies @searchState
-//@   ensures at <= len(haystack) ==> result2 == refFound(e, e.longest, haystack, at)
-//@   ensures result2 ==> result0 == refStart(e, e.longest, haystack, at) && result1 == refEnd(e, e.longest, haystack, at)
+//@   ensures old(at) <= len(haystack) ==> result2 == refFound(e, e.longest, haystack, old(at))
+//@   ensures result2 ==> old(at) <= len(haystack) && result0 == refStart(e, e.longest, haystack, old(at)) && result1 == refEnd(e, e.longest, haystack, old(at))
+//@   after call Find: lastcall == -1 ==> !refFound(e, e.longest, haystack, at)
+//@   after call Find: (lastcall >= 0 && refFound(e, e.longest, haystack, at)) ==> at <= lastcall && lastcall <= refStart(e, e.longest, haystack, at)
+//@   loop 1: invariant old(at) <= at && e.longest == old(e.longest) && pvStateLink(e, state)
+//@   loop 1: invariant refFound(e, e.longest, haystack, old(at)) ==> refFound(e, e.longest, haystack, at) && refStart(e, e.longest, haystack, at) == refStart(e, e.longest, haystack, old(at)) && refEnd(e, e.longest, haystack, at) == refEnd(e, e.longest, haystack, old(at))
 //@ trusted func (*Engine).findIndicesNFA
 //@   requires leafOK(e)
 //@   modifies @searchState
